@@ -14,6 +14,12 @@
 #include <set>
 #include <sstream>
 
+#if defined(__SANITIZE_ADDRESS__)
+#include <sanitizer/lsan_interface.h>
+#define SIM_ASAN 1
+extern "C" __attribute__((used)) const char* __asan_default_options() { return "exitcode=77:detect_leaks=1:abort_on_error=0"; }
+#endif
+
 using namespace sim;
 
 static const Variant* find_variant(const std::string& n) {
@@ -65,19 +71,32 @@ int main(int argc, char** argv) {
         std::string prop = arg(argc, argv, "--property", "");
         int max_report = atoi(arg(argc, argv, "--max-report", "5").c_str());
         bool verbose = has_flag(argc, argv, "--verbose");
+        std::string track = arg(argc, argv, "--track", "");
         RunStats st;
         auto t0 = std::chrono::steady_clock::now();
         int reported = 0;
         for (long i = start; i < start + count; ++i) {
             uint64_t s = mix(seed, (uint64_t)i);
             Plan plan = generate_plan(d, *v, pf, s);
+            if (!track.empty()) {
+                // sanitizer builds: remember the plan in flight, a hard error kills the process
+                FILE* tf = fopen(track.c_str(), "w");
+                if (tf) { fputs(plan_to_json(plan).dump().c_str(), tf); fputc('\n', tf); fclose(tf); }
+            }
             Outcome oc = evaluate(d, *v, pf, plan, &st);
+#ifdef SIM_ASAN
+            if (oc.verdict == V_OK && __lsan_do_recoverable_leak_check()) {
+                oc.verdict = V_INVARIANT; oc.level = "SAN"; oc.props = {"C20"};
+                oc.detail = "LeakSanitizer: memory allocated during this run is no longer reachable"; oc.plan = plan;
+                oc.dv.diverged = true;
+            }
+#endif
             if (oc.verdict != V_OK && reported < max_report) {
-                Outcome m = shrink(d, *v, pf, plan, oc);
+                Outcome m = oc.level == "SAN" ? oc : shrink(d, *v, pf, plan, oc);
                 ++reported;
                 JV j = outcome_to_json(d, *v, m, i);
                 printf("DIVERGENCE %s\n", j.dump().c_str());
-                if (verbose) {
+                if (verbose && oc.level != "SAN") {
                     World real(d, [&](int) { return v->make(); }, false), model(d, [&](int r) { return (IMachine*)new Model(d, dialect_of(*v), r); }, true);
                     real.observe_each = model.observe_each = pf.observe_each;
                     real.run(m.plan); model.run(m.plan);
@@ -189,8 +208,15 @@ int main(int argc, char** argv) {
         const Profile& pf = profile_by_name(plan.profile);
         RunStats st;
         Outcome oc = evaluate(d, *v, pf, plan, &st);
+#ifdef SIM_ASAN
+        if (oc.verdict == V_OK && __lsan_do_recoverable_leak_check()) {
+            oc.verdict = V_INVARIANT; oc.level = "SAN"; oc.props = {"C20"};
+            oc.detail = "LeakSanitizer: memory allocated during this run is no longer reachable"; oc.plan = plan;
+        }
+#endif
         JV out = outcome_to_json(d, *v, oc, -1);
         printf("REPLAY %s\n", out.dump().c_str());
+        fflush(stdout);
         if (has_flag(argc, argv, "--verbose")) {
             World real(d, [&](int) { return v->make(); }, false), model(d, [&](int r) { return (IMachine*)new Model(d, dialect_of(*v), r); }, true);
             real.observe_each = model.observe_each = pf.observe_each;
